@@ -258,14 +258,14 @@ func (r *EntityLocal) RemoveAllUseCaseSupports() {
 
 // Remove all subscriptions
 func (r *EntityLocal) RemoveAllSubscriptions() {
-	for _, item := range r.features {
+	for _, item := range r.Features() {
 		item.RemoveAllRemoteSubscriptions()
 	}
 }
 
 // Remove all bindings
 func (r *EntityLocal) RemoveAllBindings() {
-	for _, item := range r.features {
+	for _, item := range r.Features() {
 		item.RemoveAllRemoteBindings()
 	}
 }
